@@ -21,6 +21,11 @@ func init() {
 		Doc: "random histories of Sent/Resent/Received events (SYN, SYNACK, DATA and ACK of reused sequence numbers) with arbitrary virtual delays, checked event by event against a small executable reference model written from the statement",
 	})
 	simrt.Register(&simrt.Scenario{
+		Prop: "C20", Name: "handshake-samples", Count: tiered(1500, 400000),
+		Run: c20Handshake, MaxOps: 1 << 20, Horizon: 10 * time.Hour,
+		Doc: "real client and server handshakes in adaptive mode over a slow link (one-way 50-700 ms) with handshake timeouts below and above the round trip and occasional loss, so that SYNs and SYN echoes are or are not retransmitted; right after each constructor returns its resend timeout must equal max(1 s, multiplier x RTT of the SYN exchange) if that side transmitted its SYN exactly once, and the initial value otherwise",
+	})
+	simrt.Register(&simrt.Scenario{
 		Prop: "C20", Name: "invariants-concurrent", Count: tiered(6000, 800000),
 		Run: c20Concurrent, MaxOps: 1 << 20, Horizon: 500 * time.Hour,
 		Doc: "a send-loop task and a receive-loop task (plus a reader) drive one TimeoutManager concurrently with the call patterns of the connection; floor / static / monotonic-boost invariants after every call",
@@ -363,4 +368,119 @@ func c20Concurrent(rc *simrt.RunCtx) {
 	case <-time.After(24 * time.Hour):
 		rc.Violate("c20.deadlock", "tasks-stuck", "timeout-manager calls of the send/receive/reader tasks never returned: %v", simrt.Live())
 	}
+}
+
+func c20Handshake(rc *simrt.RunCtx) {
+	n := uint8(1 + rc.Pick(30, "knob.n"))
+	mult := 1 + rc.Pick(8, "knob.mult")
+	lat := time.Duration(50+rc.Pick(650, "net.lat")) * time.Millisecond
+	hsC := time.Duration(200+100*rc.Pick(25, "knob.hsc")) * time.Millisecond
+	hsS := time.Duration(200+100*rc.Pick(25, "knob.hss")) * time.Millisecond
+	drop := []int{0, 0, 100, 250}[rc.Pick(4, "net.drop")]
+	c2s := &netCfg{latMin: lat, latMax: lat, dropPm: drop}
+	s2c := &netCfg{latMin: lat, latMax: lat, dropPm: drop}
+	np := newNetPair(rc, c2s, s2c)
+	np.c2s.keep, np.s2c.keep = true, true
+	optsC := []Option{WithTimeoutOptions(WithResendMultiplier(mult), WithHandshakeTimeout(hsC))}
+	optsS := []Option{WithTimeoutOptions(WithResendMultiplier(mult), WithHandshakeTimeout(hsS))}
+	rc.Knob("case", fmt.Sprintf("lat=%v hsC=%v hsS=%v mult=%d drop=%d", lat, hsC, hsS, mult, drop))
+	p := startPair(rc, np, n, optsC, optsS)
+	// read each side's timeout at the instant its constructor returns
+	type obs struct {
+		ok      bool
+		timeout time.Duration
+		hs      time.Duration
+		at      time.Duration
+	}
+	watch := func(ep *endpoint) chan obs {
+		ch := make(chan obs, 1)
+		go func() {
+			select {
+			case <-ep.ready:
+			case <-time.After(5 * time.Minute):
+				ch <- obs{}
+				return
+			}
+			c, err := ep.get()
+			if err != nil || c == nil {
+				ch <- obs{}
+				return
+			}
+			ch <- obs{true, c.timeoutManager.GetResendTimeout(), c.timeoutManager.GetHandshakeTimeout(), rc.Now()}
+		}()
+		return ch
+	}
+	oc, os := watch(p.cli), watch(p.srv)
+	co, so := <-oc, <-os
+	defer p.closeAll()
+	// reconstruct from the wire what each side transmitted and when
+	type ev struct {
+		t    time.Duration
+		kind byte
+		typ  byte
+	}
+	collect := func(l *link) []ev {
+		l.mu.Lock()
+		defer l.mu.Unlock()
+		var out []ev
+		for _, e := range l.log {
+			if len(e.b) > 0 {
+				out = append(out, ev{e.t, e.kind, e.b[0]})
+			}
+		}
+		return out
+	}
+	cEv, sEv := collect(np.c2s), collect(np.s2c)
+	expect := func(own, other []ev, answer byte, until time.Duration) (time.Duration, int, bool) {
+		// own SYN transmissions up to `until`; the answer (echoed SYN for
+		// the client, SYNACK for the server) that ended the handshake is
+		// the last delivery of that type on the other link up to `until`
+		var sent []time.Duration
+		for _, e := range own {
+			if e.kind == 's' && e.typ == SYN && e.t <= until {
+				sent = append(sent, e.t)
+			}
+		}
+		var got time.Duration = -1
+		for _, e := range other {
+			if e.kind == 'd' && e.typ == answer && e.t <= until {
+				got = e.t
+			}
+		}
+		if len(sent) != 1 || got < 0 {
+			return time.Second, len(sent), len(sent) == 1
+		}
+		v := time.Duration(mult) * (got - sent[0])
+		if v < time.Second {
+			v = time.Second
+		}
+		return v, 1, true
+	}
+	judge := func(who string, o obs, want time.Duration, tx int, sampled bool, hsBase time.Duration) {
+		if !o.ok || rc.Failed() {
+			return
+		}
+		rc.Progress()
+		if tx > 1 {
+			rc.Fault(who + "-syn-retransmitted")
+		}
+		if !near(o.timeout, want) {
+			cause := who + "/sampled-from-retransmitted-syn"
+			if tx == 1 {
+				cause = who + "/wrong-sample"
+			}
+			rc.Violate("c20.handshake-sample", cause, "%s transmitted its SYN %d time(s); right after its handshake its resend timeout is %v, expected %v (multiplier %d, one-way latency %v, handshake timeouts %v/%v)", who, tx, o.timeout, want, mult, lat, hsC, hsS)
+			return
+		}
+		if tx == 1 && o.hs != hsBase {
+			rc.Violate("c20.handshake-sample", who+"/handshake-timeout-moved", "%s never retransmitted its SYN but its handshake timeout is %v instead of %v", who, o.hs, hsBase)
+		}
+	}
+	cw, ctx, cs := expect(cEv, sEv, SYN, co.at)
+	judge("client", co, cw, ctx, cs, hsC)
+	// the server may also complete through the restart shortcut (SYNACK or
+	// DATA after a timeout): then every echo it sent counts as retransmitted
+	sw, stx, ss := expect(sEv, cEv, SYNACK, so.at)
+	judge("server", so, sw, stx, ss, hsS)
+	rc.Sample("lat=%v hsC=%v hsS=%v mult=%d drop=%d: client sent %d SYN -> %v, server sent %d SYN -> %v", lat, hsC, hsS, mult, drop, ctx, co.timeout, stx, so.timeout)
 }
